@@ -27,11 +27,13 @@ Graph(dm, dv) ==
   IN [same |-> same, dup |-> dup \/ rcd, pal |-> pal, walk |-> w,
       chain |-> IF w[1] = "ok" THEN w[2] ELSE << >>,
       unused |-> IF w[1] = "ok" THEN {i \in 1..n : \A j \in 1..Len(w[2]) : w[2][j] # i} ELSE {}]
-ProductExpected(g) == ~g.same /\ ~g.dup /\ ~g.pal /\ g.walk[1] = "ok"
-ProductAllowed(g)  == ~g.same /\ ~g.dup /\ g.walk[1] = "ok"          \* a palindromic start overhang: either reading
+\* (a palindromic start overhang is not a duplicate: "no TWO supplied modules share or reverse-complement a start
+\* overhang"; the bundled EcoFlex standard itself uses the palindromic fusion sites GTAC and TCGA)
+ProductExpected(g) == ~g.same /\ ~g.dup /\ g.walk[1] = "ok"
+ProductAllowed(g)  == ProductExpected(g)
 ErrorAllowed(g, exc) ==
   \/ exc = "InvalidSequence" /\ g.same
-  \/ exc = "DuplicateModules" /\ (g.dup \/ g.pal)
+  \/ exc = "DuplicateModules" /\ g.dup
   \/ exc = "MissingModule" /\ (g.walk[1] = "missing" \/ g.dup)
 Pieces(dm, dv, chain) == [j \in 1..(Len(chain) + 1) |-> IF j <= Len(chain) THEN dm[chain[j]].tgt ELSE dv.tgt]
 Formula(dm, dv, chain) == Concat(Pieces(dm, dv, chain))
